@@ -411,7 +411,14 @@ func c18Invalid(rep *verifkit.Report) {
 	for i := 0; i < n; i++ {
 		day := c18DayKeys[rng.Intn(7)]
 		var b bad
-		switch rng.Intn(8) {
+		switch rng.Intn(11) {
+		case 8:
+			// Bounds at the edges of the day: a range that ends at 00:00.
+			b = bad{"inverted-end-at-zero", time.Duration(1+rng.Intn(1440)) * time.Minute, 0}
+		case 9:
+			b = bad{"negative-start-end-at-zero", -time.Duration(1+rng.Intn(1440)) * time.Minute, 0}
+		case 10:
+			b = bad{"start-over-24h-end-at-zero-or-24h", 24*time.Hour + time.Duration(1+rng.Intn(600))*time.Minute, []time.Duration{0, 24 * time.Hour}[rng.Intn(2)]}
 		case 0:
 			b = bad{"negative-start", -time.Duration(1+rng.Intn(1440)) * time.Minute, time.Duration(1+rng.Intn(1440)) * time.Minute}
 		case 1:
